@@ -3,6 +3,7 @@ package c10
 import (
 	"fmt"
 	"math/rand"
+	"sync"
 	"testing"
 
 	"github.com/brewlin/net-protocol/pkg/waiter"
@@ -129,9 +130,20 @@ func genSock(rt *rapid.T) SockCase {
 	return c
 }
 
+var (
+	linkOnce sync.Once
+	linkID   tcpip.LinkEndpointID
+)
+
 func newSockStack() (*stack.Stack, *evid.Failure) {
 	s := stack.New([]string{ipv4.ProtocolName, ipv6.ProtocolName}, []string{tcp.ProtocolName, udp.ProtocolName}, stack.Options{})
-	id, _ := channel.New(64, 1500, "")
+	// One link endpoint object for the whole process: the repository keeps every
+	// registered link endpoint (and through it the stack it is attached to) alive
+	// forever, so a fresh one per case would retain every stack ever built. It
+	// carries no state between cases: nothing is injected, and outbound frames are
+	// dropped once its queue is full.
+	linkOnce.Do(func() { linkID, _ = channel.New(64, 1500, "") })
+	id := linkID
 	if err := s.CreateNIC(1, id); err != nil {
 		return nil, evid.Failf("harness", "CreateNIC: %v", err)
 	}
